@@ -519,6 +519,99 @@ func elemOf(v ssa.Value) (*ssa.IndexAddr, bool) {
 	return ia, ok
 }
 
+// returnsAllKeysSorted: fn ranges over its map parameter, appends the key in every iteration (the
+// append's block is the only back edge), sorts the slice and returns it.
+func returnsAllKeysSorted(fn *ssa.Function) (bool, string) {
+	var rng *ssa.Range
+	Instrs(fn, false, func(in ssa.Instruction) {
+		if x, ok := in.(*ssa.Range); ok && len(fn.Params) == 1 && x.X == ssa.Value(fn.Params[0]) {
+			rng = x
+		}
+	})
+	if rng == nil {
+		return false, "no range over the parameter"
+	}
+	var key ssa.Value
+	var next *ssa.Next
+	for _, ref := range *rng.Referrers() {
+		if nx, ok := ref.(*ssa.Next); ok {
+			next = nx
+			for _, r2 := range *nx.Referrers() {
+				if e, ok := r2.(*ssa.Extract); ok && e.Index == 1 {
+					key = e
+				}
+			}
+		}
+	}
+	if key == nil || next == nil {
+		return false, "the range does not bind the key"
+	}
+	lp := loopOf(fn, next.Block())
+	if lp == nil {
+		return false, "no loop"
+	}
+	hdr := loopHeader(lp)
+	var acc *ssa.Phi
+	var app *ssa.Call
+	for _, in := range hdr.Instrs {
+		phi, ok := in.(*ssa.Phi)
+		if !ok {
+			break
+		}
+		for i, e := range phi.Edges {
+			if !lp[hdr.Preds[i]] {
+				continue
+			}
+			if call, ok := e.(*ssa.Call); ok && BuiltinName(call) == "append" && call.Call.Args[0] == ssa.Value(phi) {
+				for _, src := range Sources(call.Call.Args[1]) {
+					_ = src
+				}
+				acc, app = phi, call
+			}
+		}
+	}
+	if acc == nil {
+		return false, "no slice accumulated by append in the loop"
+	}
+	// the appended element is the key
+	keyAppended := false
+	if sl, ok := app.Call.Args[1].(*ssa.Slice); ok {
+		if al, ok := sl.X.(*ssa.Alloc); ok {
+			for _, ref := range *al.Referrers() {
+				if ia, ok := ref.(*ssa.IndexAddr); ok {
+					for _, r2 := range *ia.Referrers() {
+						if st, ok := r2.(*ssa.Store); ok && st.Val == key {
+							keyAppended = true
+						}
+					}
+				}
+			}
+		}
+	}
+	if !keyAppended {
+		return false, "the appended element is not the loop key"
+	}
+	for _, pr := range hdr.Preds {
+		if lp[pr] && pr != app.Block() {
+			return false, "an iteration can continue without appending its key"
+		}
+	}
+	// no early exit
+	for b := range lp {
+		for _, su := range b.Succs {
+			if !lp[su] && b != hdr {
+				return false, "the loop can stop before all keys are collected"
+			}
+		}
+	}
+	for _, ret := range Returns(fn) {
+		if !flowsFromPhi(ret.Results[0], acc, map[ssa.Value]bool{}) {
+			return false, "a return does not return the accumulated slice"
+		}
+	}
+	return true, ""
+}
+
 // dictAndValuesRules: R01d (dictionary part) and R01e (mergeValues / mergeConfig).
 func dictAndValuesRules(c *Ctx, r *Report) {
 	roles := map[int]string{1: "to", 2: "from"}
@@ -528,35 +621,69 @@ func dictAndValuesRules(c *Ctx, r *Report) {
 	setFn := c.Method("", "fields", "set")
 	getFn := c.Method("", "fields", "get")
 	mv := c.Func("", "mergeValues")
-	var rng *ssa.Range
+	// the dictionary loop: `for k, v := range D` or `for _, k := range sortedKeys(D) { v := D[k] ...`
+	var key, val ssa.Value
+	var loopPos token.Pos
+	var srcMap ssa.Value
 	Instrs(fn, false, func(in ssa.Instruction) {
 		if x, ok := in.(*ssa.Range); ok {
 			if _, isMap := x.X.Type().Underlying().(*types.Map); isMap {
-				rng = x
-			}
-		}
-	})
-	if rng == nil {
-		r.add("R01d", name, "range over source", c.Pos(fn.Pos()), Undecided, true, "no map range found in mergeConfigDict")
-		return
-	}
-	p, ok := pathOf(rng.X)
-	r.Check(ok && rolePath(fn, p, roles) == "from.fields.d", "R01d", name, "range over source", c.Pos(rng.Pos()), "ranges over from.fields.d", "the dictionary loop does not range over the source's dictionary")
-	var key, val ssa.Value
-	for _, ref := range *rng.Referrers() {
-		if nx, ok := ref.(*ssa.Next); ok {
-			for _, r2 := range *nx.Referrers() {
-				if e, ok := r2.(*ssa.Extract); ok {
-					switch e.Index {
-					case 1:
-						key = e
-					case 2:
-						val = e
+				srcMap, loopPos = x.X, x.Pos()
+				for _, ref := range *x.Referrers() {
+					if nx, ok := ref.(*ssa.Next); ok {
+						for _, r2 := range *nx.Referrers() {
+							if e, ok := r2.(*ssa.Extract); ok {
+								switch e.Index {
+								case 1:
+									key = e
+								case 2:
+									val = e
+								}
+							}
+						}
 					}
 				}
 			}
 		}
+	})
+	if srcMap == nil {
+		if sk := c.TryFunc("", "sortedKeys"); sk != nil {
+			for _, ci := range CallsTo(fn, sk, false) {
+				call, ok := ci.(*ssa.Call)
+				if !ok {
+					continue
+				}
+				srcMap, loopPos = call.Call.Args[0], call.Pos()
+				// key: element of the returned slice; value: D[key] on the same dictionary
+				Instrs(fn, false, func(in ssa.Instruction) {
+					if ia, ok := in.(*ssa.IndexAddr); ok && ia.X == ssa.Value(call) {
+						for _, ref := range *ia.Referrers() {
+							if ld, ok := ref.(*ssa.UnOp); ok && ld.Op == token.MUL {
+								key = ld
+							}
+						}
+					}
+				})
+				Instrs(fn, false, func(in ssa.Instruction) {
+					if lk, ok := in.(*ssa.Lookup); ok && !lk.CommaOk && key != nil && lk.Index == key {
+						p1, ok1 := pathOf(lk.X)
+						p2, ok2 := pathOf(srcMap)
+						if ok1 && ok2 && rolePath(fn, p1, roles) == rolePath(fn, p2, roles) {
+							val = lk
+						}
+					}
+				})
+				allKeys, why := returnsAllKeysSorted(sk)
+				r.Check(allKeys, "R01d", c.FnName(sk), "every key visited", c.Pos(sk.Pos()), "sortedKeys appends every key of its argument unconditionally and returns the sorted slice", "the key list the dictionary loop runs over can miss keys of the source: "+why)
+			}
+		}
 	}
+	if srcMap == nil {
+		r.add("R01d", name, "range over source", c.Pos(fn.Pos()), Undecided, true, "no loop over the source dictionary found in mergeConfigDict (neither a map range nor a loop over sortedKeys)")
+		return
+	}
+	p, ok := pathOf(srcMap)
+	r.Check(ok && rolePath(fn, p, roles) == "from.fields.d", "R01d", name, "range over source", c.Pos(loopPos), "the loop runs over from.fields.d", "the dictionary loop does not run over the source's dictionary")
 	sets := CallsTo(fn, setFn, false)
 	if len(sets) != 1 || key == nil || val == nil {
 		r.add("R01d", name, "per-key store", c.Pos(fn.Pos()), Undecided, true, fmt.Sprintf("expected one fields.set call in the loop, found %d", len(sets)))
@@ -585,11 +712,13 @@ func dictAndValuesRules(c *Ctx, r *Report) {
 		r.Check(recvOK && keyOK && chainOK, "R01d", name, "per-key store", c.Pos(set.Pos()), "to.set(k, mergeValues(to.get(k), v).cpy) with the loop's own k and v", "the dictionary loop does not store merge(dest[k], source[k]) under the same key k of the destination")
 		// every iteration that does not fail reaches the store: must-pass within the loop body is
 		// implied by: the set call's block is the only predecessor of the loop header besides entry
-		hdr := rng.Block().Succs[0]
-		only := true
-		for _, pr := range hdr.Preds {
-			if pr != rng.Block() && pr != set.Block() {
-				only = false
+		only := false
+		if lp := loopOf(fn, set.Block()); lp != nil {
+			only = true
+			for _, pr := range loopHeader(lp).Preds {
+				if lp[pr] && pr != set.Block() {
+					only = false
+				}
 			}
 		}
 		r.Check(only, "R01d", name, "no skipped key", c.Pos(set.Pos()), "the loop continues only after the store", "an iteration can continue without storing its key (a source key is dropped)")
